@@ -2,9 +2,11 @@
 PROPERTY = "C14"
 LEVEL = "other"
 CONTRACT_MODULES = ["contracts.specfuns", "contracts.lemmas_desc", "contracts.pyramid", "contracts.image", "contracts.merge",
-                    "contracts.pyramidio", "contracts.collection", "contracts.datarange"]
+                    "contracts.pyramidio", "contracts.collection", "contracts.datarange", "contracts.study", "contracts.paths",
+                    "contracts.parallel", "contracts.multitan", "contracts.toastsample", "contracts.builderc"]
 FUNCTIONS = ["toasty.merge.TileMerger._get_min_max_of_children", "toasty.merge.TileMerger.walk_callback",
-             "toasty.image.Image.save", "toasty.image.Image.from_array", "toasty.image.ImageLoader.load_path"]
+             "toasty.image.Image.save", "toasty.image.Image.from_array", "toasty.image.ImageLoader.load_path",
+             "toasty.builder.Builder.cascade"]
 LEMMAS = []
 SLOW = ()
 TRUSTED_BASE = ["pyvc VC generator; z3/cvc5", "FITS header card round trip to single precision (bounded tier)"]
